@@ -870,6 +870,9 @@ typedef struct parser {
     expr_t	       *prs_head;	/* expression list head */
     expr_t	       *prs_tail;	/* expression list tail */
     vnaproperty_t      *prs_collection;	/* if last elem is map/list */
+    vnaproperty_t      *prs_insert_list;	/* list of first [n+] or [+] */
+    int			prs_insert_index;	/* index of the new slot */
+    int			prs_insert_length;	/* list length before it */
 } parser_t;
 
 /*
@@ -1243,6 +1246,33 @@ static vnaproperty_t **parse_and_descend(parser_t *parser,
 }
 
 /*
+ * undo_insert: take back the slot made by the first [n+] or [+] of a failed set
+ *   @parser: pointer to parser state structure
+ *
+ * The insert and append forms are not idempotent: without this, repeating
+ * a call that failed after its slot was made would make a second slot.
+ */
+static void undo_insert(parser_t *parser)
+{
+    vnaproperty_list_t *vplp = (vnaproperty_list_t *)parser->prs_insert_list;
+
+    if (vplp != NULL) {
+	int index = parser->prs_insert_index;
+	int saved_errno = errno;
+
+	if (index < parser->prs_insert_length) {
+	    (void)list_delete(parser->prs_insert_list, index);
+	} else {
+	    vnaproperty_free(vplp->vpl_vector[index]);
+	    vplp->vpl_vector[index] = NULL;
+	    vplp->vpl_length = parser->prs_insert_length;
+	}
+	parser->prs_insert_list = NULL;
+	errno = saved_errno;
+    }
+}
+
+/*
  * descend: follow the parsed expression down the tree
  *   @parser:  parser state filled in by parse
  *   @rootptr: address of property data root
@@ -1349,8 +1379,18 @@ static vnaproperty_t **descend(parser_t *parser,
 		    goto error;
 		}
 		collection = node;
-		if ((anchor = list_insert(node, exp->u.ex_index)) == NULL) {
-		    goto error;
+		{
+		    int length = ((vnaproperty_list_t *)node)->vpl_length;
+
+		    if ((anchor = list_insert(node,
+				    exp->u.ex_index)) == NULL) {
+			goto error;
+		    }
+		    if (parser->prs_insert_list == NULL) {
+			parser->prs_insert_list   = node;
+			parser->prs_insert_index  = exp->u.ex_index;
+			parser->prs_insert_length = length;
+		    }
 		}
 		node = *anchor;
 		continue;
@@ -1361,8 +1401,17 @@ static vnaproperty_t **descend(parser_t *parser,
 		    goto error;
 		}
 		collection = node;
-		if ((anchor = list_append(node)) == NULL) {
-		    goto error;
+		{
+		    int length = ((vnaproperty_list_t *)node)->vpl_length;
+
+		    if ((anchor = list_append(node)) == NULL) {
+			goto error;
+		    }
+		    if (parser->prs_insert_list == NULL) {
+			parser->prs_insert_list   = node;
+			parser->prs_insert_index  = length;
+			parser->prs_insert_length = length;
+		    }
 		}
 		node = *anchor;
 		continue;
@@ -1392,6 +1441,7 @@ static vnaproperty_t **descend(parser_t *parser,
     return anchor;
 
 error:
+    undo_insert(parser);
     parser_free(parser);
     return NULL;
 }
@@ -1680,6 +1730,7 @@ int vnaproperty_vset(vnaproperty_t **rootptr, const char *format, va_list ap)
     case T_ASSIGN:
 	value = scalar_alloc(scanner->scn_position);
 	if (value == NULL) {
+	    undo_insert(&parser);
 	    goto out;
 	}
 	break;
